@@ -185,6 +185,8 @@ func equals(t types.Type, x, y value) bool {
 		return x == y.(*symchan)
 	case hostval:
 		return x.v == y.(hostval).v
+	case poisonByte:
+		panic(engineFault{"the formatted text of a symbolic number is used in a computation (formatting is stubbed)"})
 	case structure:
 		return x.eq(t, y)
 	case array:
